@@ -650,10 +650,24 @@ func main() {
 	g := &asn1gen.Gen{R: r}
 
 	focus := focusedTypes()
-	for i := 0; i < n+len(focus); i++ {
+	nb := lib.Count(60, 600) // boundary stream: lengths where the DER length field grows / has 0xff on top
+	for i := 0; i < n+len(focus)+nb; i++ {
 		t := g.Type(1 + r.Intn(4))
 		if i%4 == 0 {
 			t = g.Struct(2 + r.Intn(3))
+		}
+		g.Boundary = i >= n+len(focus)
+		if g.Boundary {
+			oct, str, in := &asn1gen.Ty{Kind: "octets"}, &asn1gen.Ty{Kind: "string"}, &asn1gen.Ty{Kind: "int"}
+			fl := func(ts ...*asn1gen.Ty) *asn1gen.Ty {
+				st := &asn1gen.Ty{Kind: "struct"}
+				for k, x := range ts {
+					_ = k
+					st.Fields = append(st.Fields, asn1gen.Field{T: x})
+				}
+				return st
+			}
+			t = []*asn1gen.Ty{oct, str, fl(oct), fl(in, oct), fl(str, in), {Kind: "seqof", Elem: oct}, fl(fl(oct)), fl(in, fl(in, oct))}[r.Intn(8)]
 		}
 		focused := i < len(focus)
 		if focused {
